@@ -2,7 +2,9 @@
 from vlib.framework import PUnit, LUnit, BUnit
 from bounded import b_seq as B
 
-P_UNITS = []
+from contracts import dna as D
+
+P_UNITS = [LUnit("pairing-table", D.lemma_base_library)]
 
 
 def build(tier, seed):
